@@ -452,6 +452,7 @@ class Exec:
         if q in self.overrides:
             return self.overrides[q](self, list(args), dict(kw))
         o = Obj(clsname)
+        o.by_ctor = True
         m = self.repo.method(clsname, '__init__')
         if m:
             ci, node = m
@@ -815,6 +816,10 @@ class Exec:
             if ca:
                 ci, node = ca
                 return self.ev(node, {'__mod__': ci.mod})
+            if not getattr(o, 'by_ctor', False):
+                # an object assembled by a contract harness (fields given directly, constructor not run) lacks an attribute the code reads:
+                # the contract's picture of the class is out of date - undecided, never "the program raises AttributeError"
+                raise Unsupported(f'harness-built {o.cls} object has no attribute {attr!r} (the contract does not know this field)')
             raise SymRaise('AttributeError', f'{o.cls}.{attr}')
         if isinstance(o, SuperRef):
             m = self.repo.method(o.base, attr)
